@@ -54,3 +54,9 @@ Proof.
   - apply andb_true_iff in E. destruct E as [E1 E2]. apply H in E1. apply IH in E2. congruence.
   - inversion E; subst. apply andb_true_iff. split; [apply H; reflexivity | apply IH; reflexivity].
 Qed.
+
+Lemma forallb_ext_in {A} (f g : A -> bool) l : (forall x, In x l -> f x = g x) -> forallb f l = forallb g l.
+Proof.
+  induction l as [|a l IH]; simpl; intros H; [reflexivity|].
+  rewrite (H a) by (left; reflexivity). f_equal. apply IH. intros; apply H; right; assumption.
+Qed.
